@@ -1,0 +1,29 @@
+//go:build verif
+
+// Contracts for package math, checked by /verif/gvc (see /verif/DESIGN.md).
+// This file contains no code; the default build never sees it.
+
+package math
+
+//@ func IsPowerOfTwo(n int) bool
+//@   mode bv
+//@   ensures res <==> ispow2(n)
+//
+//@ func CeilToPowerOfTwo(n int) int
+//@   mode bv
+//@   panics when n > 4611686018427387904
+//@   ensures ispow2(res) && res >= n && res >= 2
+//@   ensures res / 2 < max(n, 2)
+//
+//@ func FloorToPowerOfTwo(n int) int
+//@   mode bv
+//@   ensures n <= 2 ==> res == n
+//@   ensures n > 2 ==> ispow2(res) && res <= n && n - res < res
+//
+//@ func ClosestPowerOfTwo(n int) int
+//@   mode bv
+//@   requires n >= 1
+//@   panics when n > 4611686018427387904
+//@   ensures ispow2(res)
+//@   ensures res >= n ==> res / 2 < max(n, 2) && res - n <= n - res / 2
+//@   ensures res < n ==> 2 * res >= n && n - res < 2 * res - n
